@@ -91,7 +91,7 @@ CLAIMED = {
                   "- the transforms of the documented -k(2pi/L)gamma cos and gamma sin (transform of a real harmonic proved from a primitive root); the 2D convection term vanishes identically on "
                   "the laminar subspace; on it every ETD tableau is u' = E u + h phi1 f and n steps from rest give f (E^n - 1)/lambda; ForcedStepper laws. Injection arrays compared element-wise "
                   "(exact rationals) for all admissible modes, N parity, several L.",
-             note="The 3D laminar subspace (u x curl u is a gradient, removed by the projection) is not proved; laminar solutions of both Kolmogorov steppers and the generic vorticity stepper are checked "
+             note="The 3D laminar subspace is now proved as well (u x curl u = grad(u_0^2/2) on states (u_0(x_1),0,0), removed by the Leray projection, mean by antisymmetry); laminar solutions of both Kolmogorov steppers and the generic vorticity stepper are checked "
                   "against the closed form on the real code for orders 1-4, L != 2 pi, modes above the dealiasing cutoff.",
              technique="Rocq proof (case analysis on the masks, tableau algebra, induction on n) + exact correspondence of the injection arrays", design="§4 C12"),
  "C05": dict(text="Theorems (any field of characteristic 0 with i^2=-1; every order n, every wavenumber list): the derivative multiplier and gradient-axis placement, Laplace operator of order 2n = "
